@@ -219,8 +219,10 @@ def c_int(text):
 @st.composite
 def junk_line(draw, live_ids):
     k = draw(st.integers(0, 8))
-    jid = draw(st.sampled_from(JUNK_IDS))
-    anyid = draw(st.sampled_from(JUNK_IDS + [str(i) for i in live_ids] + ["-1"]))
+    # (ids that no well-formed line of this stream uses: a scenario may announce a client under one of the usual junk ids)
+    junk_ids = [j for j in JUNK_IDS if int(j) not in live_ids] or ["900900"]
+    jid = draw(st.sampled_from(junk_ids))
+    anyid = draw(st.sampled_from(junk_ids + [str(i) for i in live_ids] + ["-1"]))
     if k == 8:
         # one over-long junk line: a no-op head, a long run of blanks (skipped by the tokenizer) and a tail that
         # would be a meaningful line of its own if the daemon ever lost track of where the line began
@@ -261,7 +263,7 @@ def junk_line(draw, live_ids):
     if k == 6:   # data commands without their parameter, for a live id
         lid = draw(st.sampled_from([str(i) for i in live_ids] or ["900"]))
         return "%s %s" % (lid, draw(st.sampled_from(["N", "n", "P", "U", "U onlyuser", "N ", "P "])))
-    return "%s" % draw(st.sampled_from(JUNK_IDS + ["5", "-1", "0"]))   # id only
+    return "%s" % draw(st.sampled_from(junk_ids + ["5", "-1", "0"]))   # id only
 
 
 @st.composite
